@@ -26,5 +26,8 @@ void plant(size_t size, uintptr_t addr);
 bool plantPending();
 uintptr_t runRegionBase();
 uint64_t allocationCount();
+// Fault: the n-th throwing operator new from now on (n >= 1) fails with std::bad_alloc, once.  0 disarms.
+void failAllocation(uint64_t nth);
+bool allocationFailureFired();
 
 } // namespace simalloc
